@@ -190,6 +190,7 @@ pub mod tick {
         static LIMIT: Cell<u64> = const { Cell::new(u64::MAX) };
         static KINDS: RefCell<Vec<(&'static str, u64)>> = const { RefCell::new(Vec::new()) };
         static ITERS: RefCell<Vec<(&'static str, u64, u64, u64)>> = const { RefCell::new(Vec::new()) };
+        static FLIPS_SINCE_ATTEMPT: Cell<u64> = const { Cell::new(0) };
     }
 
     /// Reset the counter and install a ceiling (`u64::MAX` = none).
@@ -198,6 +199,7 @@ pub mod tick {
         LIMIT.with(|l| l.set(limit));
         KINDS.with(|k| k.borrow_mut().clear());
         ITERS.with(|k| k.borrow_mut().clear());
+        FLIPS_SINCE_ATTEMPT.with(|c| c.set(0));
     }
 
     /// A bounded loop reports the ordinal of the iteration it is entering (1-based count for the
@@ -216,6 +218,12 @@ pub mod tick {
                 k.push((kind, o, b, o.saturating_sub(b)));
             }
         });
+    }
+
+    /// Number of `repair.flip` ticks since the last `repair.attempt` tick.
+    #[must_use]
+    pub fn flips_since_attempt() -> usize {
+        usize::try_from(FLIPS_SINCE_ATTEMPT.with(Cell::get)).unwrap_or(usize::MAX)
     }
 
     /// `(kind, largest ordinal, largest budget, largest excess)` since the last reset.
@@ -242,6 +250,13 @@ pub mod tick {
     ///
     /// Panics with [`CEILING_MARKER`] when the installed ceiling is exceeded.
     pub fn tick(kind: &'static str) {
+        // flips applied since the current repair attempt began, counted here and not taken from
+        // the library's own statistics (see `flips_since_attempt`)
+        if kind == "repair.attempt" {
+            FLIPS_SINCE_ATTEMPT.with(|c| c.set(0));
+        } else if kind == "repair.flip" {
+            FLIPS_SINCE_ATTEMPT.with(|c| c.set(c.get() + 1));
+        }
         let t = TOTAL.with(|t| {
             let v = t.get() + 1;
             t.set(v);
